@@ -226,8 +226,7 @@ fn run_once(c: &Case, hash_seed: u64, out: &mut Outcome) -> Option<Vec<Vec<(Vec<
             if !req.byron.is_empty() {
                 let mut bw = csl::BootstrapWitnesses::new();
                 for a in &req.byron {
-                    if let Some(id) = byron_by_addr(a, w.magic) {
-                        let bm = byron(id, w.magic);
+                    if let Some(bm) = crate::wallet::byron_mat_by_addr(a, w.magic) {
                         bw.add(&csl::make_icarus_bootstrap_witness(&th, &bm.addr, &bm.xprv));
                     }
                 }
